@@ -69,8 +69,29 @@ def kid(node, name):
     return None
 
 
+TEARDOWN_OPS = ("abrupt_shutdown", "drop_conn", "eof", "read_fail")
+
+
+def teardown_step(trace):
+    """first step at which the connection is being torn down (user abort, transport end, connection error):
+    from there on records are discarded wholesale and the model's per-record accounting is not compared"""
+    for st in trace:
+        op = st["op"]
+        if op.get("op") in TEARDOWN_OPS or (op.get("op") == "write_mode" and op.get("mode") in ("fail", "zero")):
+            return st["i"]
+        if st.get("snap", {}).get("conn", {}).get("conn_error"):
+            return st["i"]
+        r = st["res"]
+        if op.get("op") in ("conn_poll", "poll_accept") and isinstance(r, str) and (r.startswith("E(") or r.startswith("Ready")):
+            return st["i"]
+    return None
+
+
 def labels_of_scenario(sc):
     trace = sc["trace"]
+    cut = teardown_step(trace)
+    if cut is not None:
+        trace = [st for st in trace if st["i"] < cut]
     roots = build_forest(trace)
     res_by_step = {st["i"]: (st["op"], st["res"]) for st in trace}
     labels, counts = [], {}
@@ -148,7 +169,7 @@ def labels_of_scenario(sc):
         else:
             add("RUnexpected_%s" % nm.replace(".", "_"))
     fin = "(@None ((Z * Z * Z * Z) * list (N * (Z * Z * Z * bool))))"
-    for st in trace[-1:]:
+    for st in (trace[-1:] if cut is None else []):
         if "snap" in st:
             sn = st["snap"]
             c = sn["conn"]
